@@ -123,6 +123,20 @@ def corruptions(seeds, shape_kwargs):
     yield "pubkey=upper-case (re-signed)", e2, tk, ok
     ev, key, tk = base()
     yield "pubkey=other-key", dict(ev, pubkey=seeds.keys[(seeds.keys.index(key) + 1) % len(seeds.keys)].pk), tk, False
+    # the relay's own service key as claimed author (its pubkey is public): forged signatures
+    svc = ref.key_from_seed("service")
+    ev, key, tk = base()
+    yield "pubkey=relay-service-key (sig by sender)", dict(ev, pubkey=svc.pk), tk, False
+    ev, key, tk = base()
+    e2 = dict(ev, pubkey=svc.pk)
+    e2["id"] = ref.compute_id(e2["pubkey"], e2["created_at"], e2["kind"], e2["tags"], e2["content"])
+    e2["sig"] = key.sign(bytes.fromhex(e2["id"]))
+    yield "pubkey=relay-service-key (re-hashed, sig by sender)", e2, tk, False
+    ev, key, tk = base()
+    e3 = dict(ev, pubkey=svc.pk, kind=31494, tags=[["d", "auth:" + key.pk], ["t", "auth"], ["p", key.pk]], content="s " + tk)
+    e3["id"] = ref.compute_id(e3["pubkey"], e3["created_at"], e3["kind"], e3["tags"], e3["content"])
+    e3["sig"] = "00" * 64
+    yield "pubkey=relay-service-key (forged role assignment, zero sig)", e3, tk, False
     ev, key, tk = base()
     yield "pubkey=62-chars", dict(ev, pubkey=ev["pubkey"][:62]), tk, False
     ev, key, tk = base()
